@@ -84,6 +84,7 @@ let parse_op (s : Stdlib.String.t) : cop =
   | ["i"; k; v] -> OpInsert (n_of_string k, bytes_of_hex v)
   | ["g"; k] -> OpGet (n_of_string k)
   | ["c"; k] -> OpContains (n_of_string k)
+  | ["v"; k] -> OpGetValueTx (n_of_string k)
   | ["l"] -> OpLen
   | ["f"] -> OpFull
   | _ -> failwith ("bad op " ^ s)
